@@ -35,6 +35,9 @@ func runC02(c *Ctx) {
 	// (seeds c02e, c02g), and the per-request RocksDB context must not survive the request (seed c02f)
 	c.importRules(runC04, "C04", map[string]string{"untagged": "untagged", "keyloc": "keyloc"})
 	c.importRules(runC05, "C05", map[string]string{"fresh-context": "fresh-context"})
+	// the v2 walker cuts several labels in one step: its wild-safe test has to cover all of them, or a name with an
+	// unsafe label in the middle is answered from a wildcard by the v2 server only (round-5 seed c02j)
+	c.importRules(runC01, "C01", map[string]string{"wildsafe-span": "wildsafe-span"})
 }
 
 func c01TypeFilter2(c *Ctx, rule string) {
